@@ -732,12 +732,12 @@ func enumPacks() {
 						for si := 0; si < 2; si++ {
 							for _, at := range []string{"", "application/vnd.example.thing", "not a type", ocispec.MediaTypeImageManifest} {
 								for ci, created := range enumCreated {
-									// quick: the leniency variants of created only on the plain option set
-									if !run.Thorough() && ci >= 4 && (li != 0 || si != 0) {
+									// the leniency variants of created only on the plain option set
+									if ci >= 4 && (li != 0 || si != 0) {
 										continue
 									}
 									for pi := 0; pi < 3; pi++ {
-										if !run.Thorough() && ci >= 4 && pi != 0 {
+										if ci >= 4 && pi != 0 {
 											continue
 										}
 										for _, fa := range fails {
